@@ -635,7 +635,13 @@ def struct_post_hints(ob):
 def install(src):
     nostop = no_stop_on_build(src)
     seq_canon = canonical_post_hints(SEQUENCE)
-    ghost.POST_HINTS['Sequence'] = lambda ob: (seq_canon(ob) if getattr(ob, 'canonical_traits', False) else SEQUENCE.post_hints(ob)) + nostop(ob)
+
+    def no_stop_on_parse(ob):
+        """domain restriction of the canonical-form lemma for Sequence (listed in the evidence): the accepted input is one on which no
+        member ended the parse early (StopIf): such a parse returns a SHORTER list, which builds (fix f8c1dc3) but is outside the lemma"""
+        apps = ghost.find_apps(list(ob.hyps) + [ob.goal], ('qfold',))
+        return [t.not_(ps('ps_stop', a)) for a in apps['qfold'].values() if not ghost.has_bound_var(a)]
+    ghost.POST_HINTS['Sequence'] = lambda ob: ((seq_canon(ob) + no_stop_on_parse(ob)) if getattr(ob, 'canonical_traits', False) else SEQUENCE.post_hints(ob)) + nostop(ob)
     ghost.POST_HINTS['Struct'] = lambda ob: struct_post_hints(ob) + nostop(ob)
     from . import lazylemmas as _lzl
     ghost.POST_HINTS['LazyStruct'] = _lzl.struct_post_hints(src)
